@@ -207,7 +207,8 @@ fn cmd_replica(args: &Args, seed: u64, dir: &std::path::Path, trace: &mut Trace,
                 len: if small { 6 } else { 24 },
                 invalid: false,
                 subs: false,
-                msgs: false,
+                // reconciliation messages with several entries of several authors: one call, one store view
+                msgs: !small,
                 admin: i % 5 == 0,
                 ranges: false,
             },
